@@ -183,7 +183,7 @@ theorem restart_SmallSys (y : Sys) (r : RefLog) (cfg' : Cfg) (h : CSys y r) (hS 
   obtain ⟨s', ho, _, _, _, k4, k5, _⟩ := openStore_of_rep cfg' hinv hinf hp hlinked
   have hy2 : (y.step .drop).step (.openWith cfg') =
       { ({ (y.step .drop) with cfg := cfg' } : Sys) with
-        fs := y.fs, store := some s',
+        fs := y.fs.syncAll s.chunkIds, store := some s',
         worker := { files := [⟨s.openId, prevLastOf s.closed⟩] }, locked := true } := by
     simp only [Sys.step, Sys.open, d2, d1, ho]
     simp
@@ -192,9 +192,11 @@ theorem restart_SmallSys (y : Sys) (r : RefLog) (cfg' : Cfg) (h : CSys y r) (hS 
   have e : s' = s2 := by injection hs2
   subst e
   obtain ⟨f1, _, _⟩ := reopen_worker_facts s.openId (prevLastOf s.closed)
-  refine (hS s hs).transport (fun _ hid => hid) (fun id => ?_)
+  refine (hS s hs).transport (fun _ hid => (by
+    have e0 := Fs.ids_syncAll y.fs s.chunkIds
+    rw [← e0]; exact hid)) (fun id => ?_)
   have e1 : s'.openId = s.openId := by simp [Store.openId, k4]
-  simp only [chunkBytes, f1, hinf, k5, hp, e1]
+  simp only [chunkBytes, f1, hinf, k5, hp, e1, fdata_syncAll]
 
 /-! ### From small journals to `FsSmall` -/
 
